@@ -215,6 +215,7 @@ pub mod filetime {
                         part: None,
                         proc: s.proc,
                         op: 0,
+                        lib: false,
                     },
                 };
                 let mut req = Req::fd(s.fd);
